@@ -25,7 +25,7 @@ UNI_LETTERS = [
 MULTI = ["http://", "https://", "HTTP://", "//", "://", "%2F", "%7E", "%41", "%", "%%", "%s", "{}", "{0}", "\\n", "\\", "pull", "issues", "@id",
          "ns1", "ns10", "None", "nan", "0", "00", "01", "-1", "a+b", "a b", "..", "../", "&amp;", "<x>", "[x]", "a,b", "a;b", "a|b",
          # names and namespaces that RDF / XML tooling treats specially
-         "{pattern}", "{uri_prefix}", "{prefix}", "http://[E", "//[", "HTTP://[::1]/", "\u2100",
+         "{pattern}", "{uri_prefix}", "{prefix}", "$schema", "$id", "$ref", "@context", "__proto__", "constructor", "http://[E", "//[", "HTTP://[::1]/", "\u2100",
          "%20", "%0A", "%C2%A0", "%2F%2Fb", "/%2Fb", "%3A", "%23",
          "sh", "xsd", "rdf", "rdfs", "owl", "xml", "xmlns", "XML", "xmlfoo", "static", "_",
          "http://www.w3.org/ns/shacl#", "http://www.w3.org/2001/XMLSchema#", "http://www.w3.org/1999/02/22-rdf-syntax-ns#",
